@@ -10,7 +10,9 @@ import (
 	"io"
 	"net"
 	"os"
+	"runtime"
 	"sort"
+	"strings"
 	"sync"
 	"syscall"
 	"time"
@@ -177,6 +179,7 @@ type stream struct {
 	wstall     chan struct{}
 	werr       error
 	discard    bool // writes succeed into the void
+	eager      bool // delivery no longer waits for the scheduler (see Endpoint.Read)
 
 	rng     *simrt.RNG // per-stream: draws depend on this stream's own history only
 	cutAt   int64
@@ -366,6 +369,23 @@ func (e *Endpoint) Read(b []byte) (int, error) {
 			n.mu.Unlock()
 			return 0, err
 		}
+		if !e.pipe.WS && !st.eager && inBodyClose() {
+			// net/http drains an unread request body inside body.Close, holding the
+			// body's sync.Mutex. A second Close of the same body (the handler's own
+			// and the server's after the handler) then waits on that mutex - which,
+			// unlike every wait of the simulator, is not a durable block: the
+			// scheduler would never see the world quiescent and could never deliver
+			// the bytes the drain waits for. So for the rest of this stream delivery
+			// no longer waits for a scheduling decision: what is written arrives at
+			// once. (The bytes are discarded by the drain; nothing observes them.)
+			st.eager = true
+			n.Probes["body-drain-eager-delivery"]++
+			if len(st.segs) > 0 || st.pendingEOF {
+				n.flushLocked(st)
+				n.mu.Unlock()
+				continue
+			}
+		}
 		n.mu.Unlock()
 		dl := e.rdl.wait()
 		if isClosed(dl) {
@@ -484,11 +504,28 @@ func (e *Endpoint) write(b []byte, ignoreStall bool) (int, error) {
 			due = st.segs[k-1].due // FIFO
 		}
 		st.segs = append(st.segs, seg{data: append([]byte(nil), b...), due: due, ctrl: ctrl})
-		if n.S.Free() {
+		if n.S.Free() || st.eager {
 			n.flushLocked(st)
 		}
 		n.mu.Unlock()
 		return len(b), nil
+	}
+}
+
+// inBodyClose reports whether the caller is (transitively) net/http's
+// (*body).Close, i.e. a read issued while the request body's mutex is held.
+func inBodyClose() bool {
+	var pcs [32]uintptr
+	k := runtime.Callers(3, pcs[:])
+	frames := runtime.CallersFrames(pcs[:k])
+	for {
+		f, more := frames.Next()
+		if strings.HasSuffix(f.Function, "net/http.(*body).Close") {
+			return true
+		}
+		if !more {
+			return false
+		}
 	}
 }
 
@@ -517,7 +554,7 @@ func (e *Endpoint) Close() error {
 	if e.pipe.EndedAt == 0 {
 		e.pipe.EndedAt = n.S.Now()
 	}
-	if n.S.Free() {
+	if n.S.Free() || e.out.eager {
 		n.flushLocked(e.out)
 	}
 	n.mu.Unlock()
